@@ -649,7 +649,7 @@ impl Gen {
                 }
                 OW_PANIC => return Some(Op::Panic),
                 OW_BUILDER => {
-                    let kind = [BKind::Sized, BKind::Swh, BKind::Swh, BKind::Swh, BKind::Slice, BKind::CopySlice, BKind::Str, BKind::StaticSwh][self.rng.below(8)];
+                    let kind = [BKind::Sized, BKind::Swh, BKind::Swh, BKind::SwhTokPod, BKind::SwhTokPod, BKind::SwhPodTok, BKind::Slice, BKind::CopySlice, BKind::Str, BKind::StaticSwh][self.rng.below(10)];
                     let n = self.rng.below(9) as u8;
                     let stage = match self.rng.below(8) {
                         0 => BStage::AbandonNew,
@@ -660,6 +660,7 @@ impl Gen {
                     };
                     let stage = match (kind, stage) {
                         (BKind::CopySlice | BKind::Str, BStage::PanicAt(_)) => BStage::WrongLen(1),
+                        (BKind::Swh | BKind::SwhPodTok | BKind::Slice | BKind::StaticSwh, BStage::WrongLen(_)) => BStage::AbandonAfterHeader,
                         (BKind::Sized, BStage::PanicAt(_) | BStage::WrongLen(_)) => BStage::AbandonNew,
                         (_, s) => s,
                     };
